@@ -1,4 +1,5 @@
 import SecsModel.Proofs.HsmsTcpSend
+import SecsModel.Gen.HsmsGuards
 /-!
 # C10 — The TCP transport delivers every accepted byte exactly once and in order
 
@@ -11,6 +12,16 @@ open SecsModel SecsModel.Model.TcpSend SecsModel.Proofs.HsmsTcpSend SecsModel.Mo
 
 /-- the packet size extracted from `HsmsProtocol.send_packet_size` is positive (a zero size would make the slicing `range` raise) -/
 theorem packet_size_pos : 0 < packetSize := by decide
+
+/-- **what `close()` does to accepted bytes is the kernel's default**: the only socket options the TCP connection classes set are
+`SO_KEEPALIVE` on the connected/accepted socket and `SO_REUSEADDR` on the listener — in particular no `SO_LINGER`, which would let a local
+close discard bytes `send()` has already accepted (the theorems below speak about the bytes handed to the socket; that those arrive is the
+assumed behaviour of TCP *with default close semantics*) -/
+theorem socket_options :
+    Gen.HsmsGuards.sockOpts =
+      [("tcp_client_connection.py", "self._socket", "socket.SOL_SOCKET", "socket.SO_KEEPALIVE"),
+       ("tcp_server_connection.py", "self._server_sock", "socket.SOL_SOCKET", "socket.SO_REUSEADDR"),
+       ("tcp_server_connection.py", "self._socket", "socket.SOL_SOCKET", "socket.SO_KEEPALIVE")] := by decide
 
 /-- **send all or report failure — all data, all socket behaviours.**  Whatever the socket answers (short writes of any size, `EWOULDBLOCK`,
 `select` time-outs, errors, in any order): the bytes handed to the socket are always a prefix of `data` (in order, nothing duplicated);
